@@ -8,7 +8,7 @@
 From Coq Require Import String.
 From Coq Require Import List Arith ZArith.
 Import ListNotations.
-From YP Require Import Base.Str Term.Term Term.Show Engine.Db Engine.DbCursor Engine.DbCursorThms Engine.DbSpec Engine.DbTotal Engine.DbFacts Engine.DbProg Engine.DbProgThms Engine.RunDbProg Engine.DbProgInv Engine.DbProgSim.
+From YP Require Import Base.Str Term.Term Term.Show Engine.Db Engine.DbCursor Engine.DbCursorThms Engine.DbSpec Engine.DbTotal Engine.DbFacts Engine.DbProg Engine.DbProgThms Engine.RunDbProg Engine.DbProgInv Engine.DbProgSim Engine.DbOpen.
 
 (* For every history of asserta / assertz / assert_fact / query (all answers, or j answers then
    close) / retract (j answers requested, then closed; j larger than the number of matches = run to
@@ -91,6 +91,62 @@ Example C07_history :
                     VAll [[a; b]]; VOk; VAll []] /\
     map vis outs = snd (srun (match_fact 20) (fun _ => []) ops).
 Proof. eexists. eexists. split; [vm_compute; reflexivity|]. split; vm_compute; reflexivity. Qed.
+
+(* ---- round 3: operations whose arguments mention variables of a query that is still OPEN ----
+   (`for _ in yp.query('name', [Y]): yp.assert_fact(yp.atom('pet'), [Y])`; a Python predicate registered with
+   register_function that stores the clause variables it receives).  DbOpen.v extends the cursor machine with the
+   bindings each suspended cursor holds (the store its match produced); XOpen c e = the event e written over the
+   pattern variables of cursor c.  For every fuel, state and extended history: the extended run IS a run of the
+   cursor machine on the base history es that it names - so every theorem above and in C14.v holds for it. *)
+Theorem C07_open_history_is_history : forall fuel xs x x' es outs,
+  xrun fuel x xs = Some (x', es, outs) ->
+  run (match_fact fuel) (xs_st x) es = Some (xs_st x', outs) /\ length es = length xs.
+Proof. exact xrun_is_run. Qed.
+Print Assumptions C07_open_history_is_history.
+
+(* assert_fact over the variables of an open cursor stores, as ONE new Answer at the end / front of the list that is
+   current then, the value its arguments have under the cursor's bindings at that moment (deep get_value); the
+   cursors and their bindings are untouched *)
+Theorem C07_open_assert_stores_value : forall fuel x c name args append,
+  xstep fuel x (XOpen c (EAssertFact name args append)) =
+  let vals := map (den (xs_bind x c)) args in
+  let k := (name, length args) in
+  let f := mkfact (snext (xs_st x)) vals in
+  Some (mkx (mkst (upd k (ins (negb append) f (sdb (xs_st x) k)) (sdb (xs_st x))) (S (snext (xs_st x))) (scur (xs_st x)))
+            (xs_bind x),
+        EAssertFact name vals append, OIns k (negb append) f).
+Proof. exact open_assert_stores_value. Qed.
+Print Assumptions C07_open_assert_stores_value.
+
+(* the bindings kept for a suspended cursor are those of the answer the caller saw: a well-formed store under which
+   the pattern reads as that answer *)
+Theorem C07_open_bindings_are_the_answer : forall fuel pat args a, match_fact fuel pat args = MYes a ->
+  wf (bind_of fuel pat args) /\ a = map (den (bind_of fuel pat args)) pat.
+Proof. exact bind_of_answer. Qed.
+Print Assumptions C07_open_bindings_are_the_answer.
+
+(* and whatever the cursors do afterwards (advance, end, close), the database is the fold of the atomic updates in
+   the order in which they were issued: a stored fact never changes *)
+Theorem C07_open_no_lost_update : forall fuel xs x x' es outs,
+  ids_ok (sdb (xs_st x)) (snext (xs_st x)) -> xrun fuel x xs = Some (x', es, outs) ->
+  (forall k, sdb (xs_st x') k = apply_outs outs (sdb (xs_st x)) k) /\ ids_ok (sdb (xs_st x')) (snext (xs_st x')).
+Proof. exact xrun_no_lost_update. Qed.
+Print Assumptions C07_open_no_lost_update.
+
+(* non-vacuity: p = [p(a), p(f(b))]; for every answer of p(Y): assert_fact(q, [Y]) resp. assert_fact(q, [who(Y)]);
+   once more after the query has ended (Y is unbound again).  q = [q(a), q(who(f(b))), q(_)] *)
+Example C07_open_history :
+  let a := TAtom (d "a") in let b := TAtom (d "b") in
+  let fb := TFun (d "f") [b] in
+  let xs := [XBase (EAssertFact (d "p") [a] true); XBase (EAssertFact (d "p") [fb] true);
+             XBase (EStart 0 (QQuery (d "p") [TVar 0])); XBase (ENext 0);
+             XOpen 0 (EAssertFact (d "q") [TVar 0] true); XBase (ENext 0);
+             XOpen 0 (EAssertFact (d "q") [TFun (d "who") [TVar 0]] true); XBase (ENext 0);
+             XOpen 0 (EAssertFact (d "q") [TVar 0] true)] in
+  exists x' es outs, xrun 20 xinit xs = Some (x', es, outs) /\
+    map fargs (sdb (xs_st x') (d "q", 1)) = [[a]; [TFun (d "who") [fb]]; [TVar 0]] /\
+    nth 4 es EClear = EAssertFact (d "q") [a] true.
+Proof. eexists. eexists. eexists. split; [vm_compute; reflexivity|]. split; vm_compute; reflexivity. Qed.
 
 (* ---- "issued through the Python API or FROM COMPILED CODE" ----
    DbProg.solve runs clause bodies (goals on dynamic facts and on compiled predicates, =, asserta/assertz/
